@@ -146,7 +146,32 @@ def _signatures(ctx: Ctx) -> None:
     _call(ctx, "dleq.verify_proof/hostile-proof", lambda: dleq.verify_proof(point, point, point, proof), predicate=True)
 
 
+MEMORY_BUDGET = 6 << 30
+
+
+class memory_budget:
+    """An address-space ceiling while hostile input is being decoded: a decoder that allocates without bound raises
+    MemoryError (a non-library exception, judged like any other) instead of taking the worker down with it."""
+
+    def __enter__(self) -> None:
+        import resource  # noqa: PLC0415
+
+        self.old = resource.getrlimit(resource.RLIMIT_AS)
+        hard = self.old[1]
+        resource.setrlimit(resource.RLIMIT_AS, (MEMORY_BUDGET if hard == resource.RLIM_INFINITY else min(MEMORY_BUDGET, hard), hard))
+
+    def __exit__(self, *exc: object) -> None:
+        import resource  # noqa: PLC0415
+
+        resource.setrlimit(resource.RLIMIT_AS, self.old)
+
+
 def run(ctx: Ctx) -> None:
+    with memory_budget():
+        _run(ctx)
+
+
+def _run(ctx: Ctx) -> None:
     old = signal.signal(signal.SIGVTALRM, _on_vtalrm)
     try:
         part = ctx.cfg.get("part") or ctx.ch.pick(["filters", "filters", "proofs", "signatures"], "part")
